@@ -1,5 +1,5 @@
 //! unit: u12b
-//! properties: C12 C17
+//! properties: C12 C17 C10
 //! note: FundedChannel::write and the disconnection it implies: inbound HTLCs the peer has announced but not yet committed (RemoteAnnounced) are not written, the written HTLC count is reduced by their number, and so is the written next_counterparty_htlc_id (the peer retransmits those adds with the same ids after the reload)
 //! trusted: R15 (statement slicing with captures): FundedChannel::write is ~500 lines of field-by-field serialization; the unit extracts, on every run, (a) the loop that counts the dropped inbound HTLCs, (b) the expression written as the inbound HTLC count, (c) the skip test of the loop that writes the inbound HTLCs, and (d) the expression written between next_holder_htlc_id and update_time_counter (the slot of next_counterparty_htlc_id), verbatim, as one function returning the two written numbers and the number of HTLCs not skipped; every other field of the channel is dropped and not claimed; `x.write(writer)?` of the two numbers becomes returning them
 //! trusted: R6: `for htlc in self.context.pending_inbound_htlcs.iter() { B }` becomes an index loop; R16: `if let &P = &e` is written `if let P = e` / a match (Verus has no `&` patterns); env: InboundHTLCState is a 5-variant skeleton without payloads (the source variants carry resolutions), InboundHTLCOutput skeleton {htlc_id, state}; Ctx/FundedChannel self skeletons
@@ -76,7 +76,7 @@ impl FundedChannel {
 //@ret r
 //@requires
     self.context.next_counterparty_htlc_id >= self.context.pending_inbound_htlcs@.len(),
-//@ensures P C12 a-written-channel-is-the-channel-after-the-disconnection-writing-implies-announced-only-inbound-htlcs-are-left-out-and-their-ids-are-given-back
+//@ensures P C12,C10 a-written-channel-is-the-channel-after-the-disconnection-writing-implies-announced-only-inbound-htlcs-are-left-out-and-their-ids-are-given-back
     r.0 as int == self.context.pending_inbound_htlcs@.len() - n_dropped(self.context.pending_inbound_htlcs@),
     r.1 == r.0,
     r.2 as int == self.context.next_counterparty_htlc_id - n_dropped(self.context.pending_inbound_htlcs@),
